@@ -1268,15 +1268,18 @@ func run(c *h.Check) {
 		memoryIsolation(c)
 	}
 	lostResponses(c)
-	if c.Worker == 1%c.NWorkers {
-		nestedCalls(c)
-	}
 	bound := 2
 	if c.Thorough() {
 		bound = 3
 	}
 	for _, sc := range schedScenarios(c.Thorough()) {
 		c.Explore(sc, bound, 300000, false)
+	}
+	// last: it builds buses outside a controlled execution (its oracle is a real-time one, for
+	// a call that never returns), and a goroutine that a bus keeps for its lifetime must not
+	// be running free when a controlled execution starts
+	if c.Worker == 1%c.NWorkers {
+		nestedCalls(c)
 	}
 }
 
